@@ -16,7 +16,10 @@ def scalar_forms(rng, clash_name):
         sep = {"resolverInput": "number", "resolverOutput": "number | bigint", "operationInput": "string | number", "operationOutput": "string"}
         return sep, None, dict(ri=sep["resolverInput"], ro=sep["resolverOutput"], oi=sep["operationInput"], oo=sep["operationOutput"])
     if k == 4:
-        t = dict(ri="string", ro="string | Date", oi="string", oo="string")
+        # all four positions different from each other (a mix-up of any two of them is observable)
+        t = rng.choice([dict(ri="string", ro="string | Date", oi="string | number", oo="string | boolean"),
+                        dict(ri="number", ro="number | bigint", oi="string | number", oo="string"),
+                        dict(ri="string", ro="string | Date", oi="string", oo="string")])
         d = G.directive("nitrogql_ts_type", [G.arg("resolverInput", G.v_str(t["ri"])), G.arg("resolverOutput", G.v_str(t["ro"])),
                                               G.arg("operationInput", G.v_str(t["oi"])), G.arg("operationOutput", G.v_str(t["oo"]))])
         return None, d, t
